@@ -10,6 +10,7 @@ expansion algorithm; see DESIGN 6).
 import itertools
 import os
 import random
+import re
 import subprocess
 import tempfile
 
@@ -20,9 +21,12 @@ OBJ_BODIES = ["1", "X", "Y + 1", "(X)", "F(2)", "", "X ## 1", "p q", "(1 + E())"
 FUN_DEFS = [("E", "()", ["1", "", "X"]),
             ("F", "(a)", ["a", "a + 1", "a * G", "#a", "a ## 1", "x ## a", "(a)", "F(a)", "G(a)", "a a", "", "X a", "(a + E())", "V(a)"]),
             ("G", "(a, b)", ["a b", "a + b", "b a", "a ## b", "#a #b", "F(a) b", "a", "G(a, b)", "F(b)", "(a, b)"]),
-            ("V", "(a, ...)", ["a __VA_ARGS__", "#__VA_ARGS__", "F(__VA_ARGS__)", "a"])]
+            ("V", "(a, ...)", ["a __VA_ARGS__", "#__VA_ARGS__", "F(__VA_ARGS__)", "a", "__VA_ARGS__", "G(__VA_ARGS__)", "W(__VA_ARGS__, a)"]),
+            ("W", "(...)", ["__VA_ARGS__", "G(__VA_ARGS__)", "#__VA_ARGS__", "V(__VA_ARGS__)", "F((__VA_ARGS__))", "x ## __VA_ARGS__"])]
 ARGS1 = ["2", "x y", "(1, 2)", "", "F(3)", "X", "\"s t\"", "  p  q  ", "7 * F", "F", "E", "3 + E"]
-ARGS2 = [("1", "2"), ("x", ""), ("", "y"), ("F(1)", "G(2, 3)"), ("(p, q)", "c"), ("X", "X")]
+ARGS2 = [("1", "2"), ("x", ""), ("", "y"), ("F(1)", "G(2, 3)"), ("(p, q)", "c"), ("X", "X"),
+         # later arguments that themselves call the (variadic) macro they are passed to, or reach it through another macro
+         ("V(1, 2)", "V(3, 4, 5)"), ("W(1)", "W(2, W(3))"), ("F(1)", "F(2)"), ("X", "Y")]
 
 
 def tables(rng, n):
@@ -48,6 +52,8 @@ def invocations(rng):
                        # a function-like macro name that ends a replacement / an argument and finds its "(" in the enclosing text
                        f"F({a})({b[0]}, {b[1]})", f"X({a})", f"X ({b[0]}, {b[1]})", f"Y({a})", f"F({a})()", f"G({b[0]}, {b[1]})({a})",
                        f"V({a})({a})", f"F(F)({a})", f"X({a}) X({a})",
+                       f"V({a}, {b[0]}, {b[1]}, {a})", f"W({b[0]}, {b[1]})", f"W({a}, {b[0]}, {b[1]})", f"W({a})", "W()",
+                       f"V({b[1]}, {a}, V({b[0]}, {b[1]}))", f"W(W({b[0]}), W({b[1]}, {a}))",
                        f"F({a}) + F({b[0]})", "X * X", f"G({b[0]}, {b[1]}) G({b[1]}, {b[0]})", "E() E()", f"F() F({a})", "Y + Y"])
 
 
@@ -164,6 +170,9 @@ class Expansion:
             kl = feature(inp)
             if kl == "other" and [x.replace(" ", "") for x in got] == [x.replace(" ", "") for x in want_toks]:
                 kl = "white-space-inside-a-stringified-argument"
+                if any("#__VA_ARGS__" in d for d in inp["defs"]) and re.search(r"\s,", inp["inv"]):
+                    # the recorded finding: the commas between variable arguments are rebuilt without the blank before them
+                    kl = "stringified-variadic-arguments-lose-the-blank-before-a-comma"
             return {"expected": want_toks, "observed": got, "klass": "expansion:" + kl}
         return None
 
